@@ -245,7 +245,50 @@ class H:
                 self.do_getres(a[1], exp)
             elif op == "inj_late":
                 await self.do_inject_late(a[1])
+            elif op == "ctxprobe":
+                await self.ctxprobe()
             self.observe()
+
+    async def ctxprobe(self) -> None:
+        """A context that has been used, left and garbage collected, then a batch of new
+        contexts one of which (nearly always) re-uses its address: that one is a new context
+        with a resource_added signal of its own - its events carry it as their source and
+        reach its own listeners."""
+        import gc
+        import weakref
+
+        sim = self.sim
+        batch: list = []
+        # phase 1 (no suspension points, so that the number of tries leaves no mark on the
+        # schedule): whether the allocator hands the freed block out again is up to it - try
+        # until it has, so that practically every run and every replay gets a re-used address
+        for _attempt in range(12):
+            c0 = Context()
+            await c0.__aenter__()
+            c0.add_resource(object(), "probe0")
+            await c0.__aexit__(None, None, None)
+            ref = weakref.ref(c0)
+            old = id(c0)
+            del c0
+            if ref() is not None:
+                gc.collect()
+            batch = [Context() for _ in range(128)]
+            batch.sort(key=lambda x: id(x) != old)
+            if id(batch[0]) == old:
+                break
+        # phase 2: the new contexts (the one at the recycled address first)
+        ok = True
+        for b in batch[:4]:
+            got = None
+            async with b.resource_added.stream_events() as st:
+                async with b:
+                    b.add_resource(object(), "probe1")
+                with anyio.move_on_after(0.5):
+                    got = await st.__anext__()
+            if got is None or got.source is not b or got.resource_name != "probe1":
+                ok = False
+        del batch
+        sim.log("ctxprobe", ok=ok)
 
     async def branch(self, br: dict, exp: str) -> None:
         await self.acts(br.get("body", ()), exp)
@@ -857,6 +900,11 @@ def oracle(sim: Sim, plan: dict) -> list[dict]:
             m = M[ctx_id]
             f = fac_specs.get(d["fid"])
             L["runs"] += 1
+            if L.get("inj"):
+                seen_f = L.setdefault("fids", [])
+                if d["fid"] in seen_f:
+                    v("C19.equiv", "factory_called_twice", f"one call of an injected function invoked factory {d['fid']} twice in {ctx_id}: the explicit lookup it stands for invokes it once")
+                seen_f.append(d["fid"])
             if f is None:
                 continue
             # which key is being generated? any of the factory's keys still free/not
@@ -1012,6 +1060,9 @@ def oracle(sim: Sim, plan: dict) -> list[dict]:
                     v("C04.same", "inject_disagrees", f"{where}: the explicit lookup gives {want_out}, the injected call gave {d['out']}/{d['vals']}")
                 if d["body_ran"]:
                     v("C19.before_body", want_out, f"{where}: function body ran although a dependency lookup failed")
+        elif kind == "ctxprobe":
+            if not d["ok"]:
+                v("C18.events", "source@recycled_context", f"a new context allocated after another one had been garbage collected did not announce its publication on a signal of its own ({d})")
         elif kind == "inj_late":
             if d["second"] != "ok" or d["same"] is not True:
                 v("C19.forward_ref", "retry", f"@inject with a forward reference that became resolvable only after a failed first call ({d['first']}): second call gave {d['second']} (same object: {d['same']})")
@@ -1108,6 +1159,8 @@ class G:
     def act(self, lineage: list, depth: int) -> list:
         rng = self.rng
         op = pick(rng, self.w)
+        if self.prop == "C18" and rng.random() < 0.03:
+            return ["ctxprobe"]
         if op == "p":
             return rpause(rng)
         if op == "add":
